@@ -21,8 +21,10 @@
             particular a Set leaves its own key present unless the entry it
             stores is already expired on arrival (negative lifetime).
    The retention clause in its global form ("... while fewer than capacity
-   other keys have been used since its own last use") follows from (2)+(3); it
-   is proved for the model as C13_retention.
+   other keys have been used since its own last use") follows from (2)+(3):
+   that is proved about this monitor, for arbitrary observations, as
+   C13_monitor_retention (Proofs/CacheLru.v, monitor_retention), and directly
+   for the model as C13_retention.
    Nothing is demanded about WHEN expired entries are purged, about Delete
    actually deleting or about returned values: those belong to C12.
    The present-key lists are used as sets (membership, cardinality): their
